@@ -4,7 +4,7 @@
    cancel()) is not modelled.  What is modelled is every behaviour of a timer that raises the
    flag at some read: the stop flag with an arbitrary schedule `stop_after` (never, or at
    the n-th read for any n), and what the two drivers do with it. *)
-From Suiron Require Import Model.Term Model.Subst Model.Rename Model.Solve Spec.SpecCut Proofs.SolveTimeout Proofs.SolveQuiet.
+From Suiron Require Import Model.Term Model.Subst Model.Rename Model.Solve Spec.SpecCut Proofs.SolveTimeout Proofs.SolveQuiet Model.Timer Proofs.TimerProofs.
 
 (* solve: one request, then one read of the flag.  It reports the timeout message when that
    read is true, otherwise "No more." when the request found no answer, otherwise the text
@@ -81,6 +81,45 @@ Theorem C23_search_never_stops_itself : forall kb bf F nd w nd' r c w1,
   quiet w -> next kb bf F nd w = Ok (nd', r, c, w1) -> quiet w1.
 Proof. exact quiet_next. Qed.
 
+(* ---- the timer protocol of time_out.rs (Model/Timer.v): every operation is one atomic step on
+        the word QUERY_STATE, so the interleavings of the main thread with the timer threads are the
+        sequences of steps; for EVERY such sequence ---- *)
+
+(* the flag goes up only through stop_query() or the time-out of the current query's own timer
+   while that query is still running ... *)
+Theorem C23_flag_raised_only_by : forall ops o,
+  flag (trun ops) = false -> flag (tstep (trun ops) o) = true ->
+  o = TStop \/ exists k, o = TFire k /\ nth_error (started (trun ops)) k = Some (cur (trun ops)) /\
+                         tstat (cur (trun ops)) = Running.
+Proof. intros ops o. apply flag_raised_only_by, tinv_reachable. Qed.
+
+(* ... a timer of an earlier query is ignored whenever it fires, and so is any timer once
+   cancel_timer() has run or the query is stopped (ThreadTimer::cancel() may fail: harmless) ... *)
+Theorem C23_stale_timer_is_ignored : forall s k m,
+  nth_error (started s) k = Some m -> (tgen m < tgen (cur s))%N -> tstep s (TFire k) = s.
+Proof. exact stale_timer_is_ignored. Qed.
+Theorem C23_cancelled_timer_is_ignored : forall ops k,
+  tstat (cur (trun ops)) <> Running -> tstep (trun ops) (TFire k) = trun ops.
+Proof. intros ops k. apply cancelled_timer_is_ignored, tinv_reachable. Qed.
+
+(* ... the flag stays up until the next query starts, and the current query's own timer does stop it *)
+Theorem C23_flag_stays_until_next_query : forall s o, flag s = true -> o <> TStart -> o <> TStartQuery -> flag (tstep s o) = true.
+Proof. exact flag_stays. Qed.
+Theorem C23_own_timer_stops : forall s k, nth_error (started s) k = Some (cur s) -> flag (tstep s (TFire k)) = true.
+Proof. exact own_timer_stops. Qed.
+
+(* the protocol before commit ba4370f (generation counter, separate flag, time-out in two steps) did
+   not have this property: a concrete schedule stops the NEXT query *)
+Theorem C23_old_protocol_refuted :
+  oflag (fold_left ostep [OStart; OFireCheck 0; OCancel; OStart; OFireStore 0] oinit) = true.
+Proof. exact old_protocol_refuted. Qed.
+
+Print Assumptions C23_flag_raised_only_by.
+Print Assumptions C23_stale_timer_is_ignored.
+Print Assumptions C23_cancelled_timer_is_ignored.
+Print Assumptions C23_flag_stays_until_next_query.
+Print Assumptions C23_own_timer_stops.
+Print Assumptions C23_old_protocol_refuted.
 Print Assumptions C23_no_stop_pending.
 Print Assumptions C23_search_never_stops_itself.
 Print Assumptions C23_solve.
